@@ -526,3 +526,77 @@ class _FuncOnly:
 
     def summary(self, m, stack=()):
         return set(), set()
+
+
+# ---------------------------------------------------------------------------------------------------------------------
+# R-GIVEN: "not given" is None, never "empty".
+#
+# Every optional argument of Shaper.__init__ (default None) is an input the user either gave or did not give; an empty
+# rdflib.Graph(), "" as raw graph or [] as list of files is *given*.  The package decides given-ness by `is None` /
+# `is not None` everywhere except at the sites frozen below (each read and confirmed).  A plain copy of such an argument
+# that is tested by truthiness at a new site treats the empty input as absent: the dispatch falls through to another
+# source (and crashes on its None), or the one-source validation miscounts.
+LEGACY_TRUTHINESS = {
+    # site -> reason it is harmless
+    ("IncludeReverseFeaturesStrategy._set_annotation_methods", "self._examples_mode"): "None or one of three non-empty string constants",
+    ("get_instance_tracker", "file_target_classes"): "a path; the empty path cannot be opened either way",
+    ("_yielder_for_url_input", "url_input"): "a URL; the empty URL cannot be fetched either way",
+}
+
+
+def _truth_operands(e):
+    if isinstance(e, ast.BoolOp):
+        for v in e.values:
+            yield from _truth_operands(v)
+    elif isinstance(e, ast.UnaryOp) and isinstance(e.op, ast.Not):
+        yield from _truth_operands(e.operand)
+    else:
+        yield e
+
+
+def _truth_positions(fn):
+    for x in walk_own(fn.node):
+        if isinstance(x, (ast.If, ast.While, ast.IfExp, ast.Assert)):
+            yield from _truth_operands(x.test)
+        elif isinstance(x, ast.comprehension):
+            for c in x.ifs:
+                yield from _truth_operands(c)
+        elif isinstance(x, ast.Call) and isinstance(x.func, ast.Name) and x.func.id in ("bool", "any", "all") and len(x.args) == 1:
+            a = x.args[0]
+            if x.func.id == "bool":
+                yield from _truth_operands(a)
+            elif isinstance(a, (ast.List, ast.Tuple)):      # any((a, b)) tests each element's truth
+                for el in a.elts:
+                    yield from _truth_operands(el)
+            elif isinstance(a, (ast.GeneratorExp, ast.ListComp)):
+                yield from _truth_operands(a.elt)
+
+
+def given_is_not_none(ctx, clause):
+    from ..core import AnalysisError
+    p, g = ctx.p, ctx.flow
+    init = p.func("shexer.shaper:Shaper.__init__")
+    a = init.node.args
+    defaults = dict(zip([x.arg for x in a.args[len(a.args) - len(a.defaults):]], a.defaults))
+    optional = [n for n, d in defaults.items() if isinstance(d, ast.Constant) and d.value is None]
+    if len(optional) < 12:
+        raise AnalysisError("Shaper.__init__ has %d optional (None) arguments, expected at least 12" % len(optional))
+    tainted = g.flows([g.var(init, n) for n in optional], labels=("copy",))
+    obs, seen_legacy, n_sites = [], set(), 0
+    for f in p.funcs.values():
+        for e in _truth_positions(f):
+            n_sites += 1
+            if not isinstance(e, (ast.Name, ast.Attribute, ast.Subscript)) or not g.expr_tainted(e, tainted, deep=False):
+                continue
+            site = (f.short, norm(e))
+            if site in LEGACY_TRUTHINESS:
+                seen_legacy.add(site)
+                continue
+            obs.append(Ob(clause, "R-GIVEN", "R-GIVEN|truthiness|%s|%s" % (f.short, f.key(e)), f.loc(e), False,
+                          "`%s` is a plain copy of an optional argument of Shaper.__init__ and is tested by truthiness: an input that "
+                          "is given but empty (an empty rdflib Graph, \"\" as raw graph, an empty list) is treated as not given - "
+                          "everywhere else given-ness is `is not None`" % norm(e)))
+    obs.append(Ob(clause, "R-GIVEN", "R-GIVEN|truthiness|all-sites", init.loc(), True,
+                  "no copy of the %d optional API arguments is tested by truthiness outside the %d confirmed legacy sites "
+                  "(%d truth-tested operands looked at)" % (len(optional), len(LEGACY_TRUTHINESS), n_sites)))
+    return obs, n_sites
